@@ -297,14 +297,19 @@ def _get_schema_or_none(
 
 
 def _default(f_type: Type, f_value: Any, config_cls: Type[BaseConfig]) -> Any:
+    if f_value is None:
+        return None
+
     @dataclass
     class CC(DataClassJSONMixin):
-        x: f_type = f_value  # type: ignore
+        # no default here: key-dropping options inherited from the owner's
+        # config (omit_default, omit_none) must not remove the rendered value
+        x: f_type  # type: ignore
 
         class Config(config_cls):  # type: ignore
             pass
 
-    return CC(f_value).to_dict()["x"]
+    return next(iter(CC(f_value).to_dict().values()))
 
 
 Registry = InstanceSchemaCreatorRegistry()
